@@ -16,10 +16,10 @@ THEOREMS = ["PotasscoVerif.C02.C02_stable_models", "PotasscoVerif.C02.C02_equiva
             "PotasscoVerif.Asp.translation_stable", "PotasscoVerif.Asp.translation_stable_back", "PotasscoVerif.Asp.stableB_iff", "PotasscoVerif.Asp.stableModels_complete", "PotasscoVerif.Asp.stableModels_sound",
             "PotasscoVerif.C02.C02_map_injective", "PotasscoVerif.C02.C02_map_stable", "PotasscoVerif.C02.C02_aux_fresh", "PotasscoVerif.C02.convert_steps",
             "PotasscoVerif.C02.C02_minimize_flip", "PotasscoVerif.C02.C02_minimize_sorted", "PotasscoVerif.C02.flushMinimize_order"]
-PARTIAL = {"C02_equivalence for external directives and several steps": "C02_stable_models / C02_equivalence / C02_cost are proved for one program step of rules (all head kinds, normal and weight bodies), "
-           "minimize and output directives; programs with external directives (how a free/true external on an undefined atom is emitted as choice/fact, or passed on with the extension), and the "
-           "answer sets of several incremental steps taken together, are decided by the brute-force answer-set oracle on the implementation's output and by model == implementation; across steps "
-           "only the atom map is proved (C02_map_stable, C02_aux_fresh)"}
+PARTIAL = {"C02_equivalence across several steps / externals with the extension": "C02_stable_models / C02_equivalence / C02_cost are proved for one program step of rules (all head kinds, normal and weight bodies), "
+           "minimize, output and external directives, the externals compiled away (conversion without the clasp extension; with it, for steps without externals); how external() calls passed on with the "
+           "extension behave, and the answer sets of several incremental steps taken together, are decided by the brute-force answer-set oracle on the implementation's output and by "
+           "model == implementation; across steps only the atom map is proved (C02_map_stable, C02_aux_fresh)"}
 BSIZES = (4096,)
 LPCONVERT = True
 RULE = ("programs of 1..8 directives over 2..6 atoms: disjunctive/choice heads incl. empty, normal and weight bodies (bounds < 0, 0, reachable, unreachable; weights 0/1/mixed), "
@@ -33,11 +33,11 @@ TECHNIQUE = "Lean 4 theorems on the converter model against a stable-model seman
 LEVEL_TEXT = ("Reference semantics Spec/Asp.lean (stable models with disjunctive/choice heads and weight bodies, reduct as a two-interpretation satisfaction relation). "
               "Asp.translation_stable / translation_stable_back: renaming by an injection + false atom for integrity constraints + routing a body through a fresh auxiliary atom preserve stable models one to one. "
               "Lemmas/ConvertSem.lean: for EVERY step of rules, weight rules, minimize and output directives the converter model emits such a translation under its own atom map (invariants J, K, M over the run). "
-              "C02_stable_models / C02_equivalence: restriction to the mapped atoms and the extension E by the auxiliary atoms are mutually inverse bijections between the answer sets of the given and of the emitted rules "
+              "Externals (Lemmas/ConvertFlags.lean): a tracker of heads / registered externals / last values follows the model's flags, and the rules emitted at the end of the step are the renamed rules of the declarative reading `progOf` (an external on an atom no rule defines: fact, choice or nothing; the last directive counts). C02_stable_models / C02_equivalence: restriction to the mapped atoms and the extension E by the auxiliary atoms are mutually inverse bijections between the answer sets of the given and of the emitted rules "
               "(false atom false = the emitted compute statement, C02_compute_false), and corresponding answer sets show exactly the same symbol names. C02_cost: per priority the emitted cost is the given cost minus "
               "the constant sum of negative weights. For EVERY call sequence: C02_map_injective, C02_map_stable, C02_aux_fresh (via convert_steps), C02_minimize_flip, C02_minimize_sorted + flushMinimize_order "
               "(one statement per priority, ascending). Externals and multi-step semantics: brute-force oracle on the implementation + model == implementation.")
-LEVEL_NOTE = ("Proof of the single-step equivalence (answer sets, shown names, cost) without externals; partial for externals/multi-step + correspondence (~4k quick / 100k thorough programs × ext on/off, sample through lpconvert) + answer-set oracle on small programs. Trusted: Lean kernel+axioms, "
+LEVEL_NOTE = ("Proof of the single-step equivalence (answer sets, shown names, cost, externals compiled away); partial for multi-step and for externals passed on with the extension + correspondence (~4k quick / 100k thorough programs × ext on/off, sample through lpconvert) + answer-set oracle on small programs. Trusted: Lean kernel+axioms, "
               "asp_sem.py, harness, generator in props/c02.py. D9 (INT_MIN minimize weight) repaired.")
 
 I32 = 2**31 - 1
@@ -196,12 +196,8 @@ def evaluate(ctx, cases):
         if c["inc"]: continue
         o = original(c); oa = sorted(asp_sem.atoms_of(o))
         if len(oa) > 7 or not oa: continue
-        rules = list(o["rules"]); defined = set(h for _, head, _ in rules for h in head)
-        for a, v in o["externals"].items():
-            if a in defined: continue
-            if v == 0: rules.append((1, [a], ("n", [])))
-            elif v == 1: rules.append((0, [a], ("n", [])))
-        ws = ["R,%d,%s,%s" % (ht, progs.lst(h), progs.lst(b[1])) if b[0] == "n" else "S,%d,%s,%d,%s" % (ht, progs.lst(h), b[1], progs.wl(b[2])) for ht, h, b in rules]
+        # rules and external directives in their original order: the Lean side reads externals declaratively (Spec/AspCalls.lean progOf)
+        ws = [w for w in words(dict(c, steps=[c["steps"][0]])) if w[0] in "RSX"]
         spec.append((c, "asp %s %s" % (":".join(map(str, oa)), " ".join(ws)), sorted(sorted(I) for I in asp_sem.stable_models(o, oa))))
         if len(spec) >= {"quick": 1500, "thorough": 20000}[ctx.tier]: break
     for (c, l, want), got in zip(spec, ctx.model([l for _, l, _ in spec])):
